@@ -3,16 +3,14 @@
   Property theorems only.  `build` is total by construction (every model function is total).
 
   Proved for every token list (no bound):
-    C03_nopanic_partial   no panic under the token-shape contract when no end tag stands at depth 0
-    C03_bytes_nopanic_partial
-    C03_sound             accepted ⇒ document-rooted, namespaces-attributes-normal order, kind
-                          rules, no adjacent text nodes; for `parse` also exactly one element and
-                          no text at top level
+    C03_nopanic, C03_bytes_nopanic   no panic under the token-shape contract
+    C03_sound             accepted ⇒ `StructValid` (document node at the root only, children
+                          ordered namespaces / attributes / normal, kind rules, attribute names and
+                          declared prefixes unique per element) and no adjacent text nodes
+    C03_sound_document    for `parse` also exactly one element and no text at top level
     C03_reject_*          one theorem per constraint the code enforces
-  Proved negations (closed witnesses, replayed on the implementation by the `build` suite):
-    C03_nopanic_false, C03_bytes_nopanic_false, C03_sound_unique_false,
-    C03_reject_duplicate_expanded_false, C03_reject_prefix_twice_false,
-    C03_reject_nonchar_false, C03_reject_signed_false, C03_reject_truncated_false
+  Closed examples (token lists of the real tokenizer, replayed on the implementation by the
+  `build` suite) accompany them.
 -/
 import XotModel.Lemmas.ParseSound
 import XotModel.Lemmas.ParseNoPanic
@@ -26,50 +24,28 @@ open XotModel XotModel.Witness
 
 /-! ### No panic -/
 
-/-- Full strength (FALSE for the code as written). -/
-def C03_nopanic_Statement : Prop :=
-  ∀ (m : Mode) (len : Nat) (env : Env) (ts : List Token) (lexErr : Option Nat),
-    TokenShape len ts lexErr → build m len env ts lexErr ≠ .panic
+/-- `build` never panics on a token list with the shape a tokenizer gives it — in document and
+    in fragment mode (an end tag at depth 0, which the fragment tokenizer does emit, is an error). -/
+theorem C03_nopanic (m : Mode) (len : Nat) (env : Env) (ts : List Token) (lexErr : Option Nat)
+    (h : TokenShape len ts lexErr) : build m len env ts lexErr ≠ .panic :=
+  build_np m len env ts lexErr h.tags
 
-/-- `build` never panics when the tokens have the shape a tokenizer gives them and no end tag
-    occurs at depth 0 (which the tokenizer guarantees in document mode, not in fragment mode). -/
-theorem C03_nopanic_partial (m : Mode) (len : Nat) (env : Env) (ts : List Token) (lexErr : Option Nat)
-    (h : TokenShape len ts lexErr) (hclose : NoStrayClose 0 ts) : build m len env ts lexErr ≠ .panic :=
-  build_np m len env ts lexErr h.tags hclose
+/-- `parse_bytes`: `decode` is total (falls back to UTF-8), the rest is `parse`. -/
+theorem C03_bytes_nopanic (env : Env) (len : Nat) (ts : List Token) (lexErr : Option Nat)
+    (h : TokenShape len ts lexErr) : parseBytes env len ts lexErr ≠ .panic :=
+  build_np .document len env ts lexErr h.tags
 
-theorem strayClose_shape : TokenShape strayCloseLen strayClose none :=
-  tokenShape_of_B (by decide +kernel)
-
-/-- `parse_fragment("</a>")` reaches `expect("Cannot close document node")`. -/
-theorem C03_nopanic_false : ¬ C03_nopanic_Statement := by
-  intro h
-  have hne := h .fragment strayCloseLen Env.fresh strayClose none strayClose_shape
-  have hp : (build .fragment strayCloseLen Env.fresh strayClose none).isPanic = true := by
-    rw [build_eq_buildE]; decide +kernel
-  cases hb : build .fragment strayCloseLen Env.fresh strayClose none with
-  | panic => exact hne hb
-  | ok p => rw [hb] at hp; cases hp
-  | err e env => rw [hb] at hp; cases hp
-
-/-- Same for `parse_fragment("<a/></a>")`. -/
-example : (build .fragment emptyThenCloseLen Env.fresh emptyThenClose none).isPanic = true := by
+/-- Non-vacuity: the tokens of `</a>` (fragment tokenizer) satisfy the contract; the result is
+    `InvalidCloseTag` with the span of `a`. -/
+example : TokenShape strayCloseLen strayClose none := tokenShape_of_B (by decide +kernel)
+example : (build .fragment strayCloseLen Env.fresh strayClose none).err? =
+    some (.invalidCloseTag [] ['a'] ⟨2, 3⟩) := by
   rw [build_eq_buildE]; decide +kernel
-
-/-- Non-vacuity of the partial theorem: the tokens of a well-formed text satisfy its hypotheses. -/
-example : TokenShape goodDocLen goodDoc none ∧ NoStrayClose 0 goodDoc :=
-  ⟨tokenShape_of_B (by decide +kernel), noStrayClose_of_B _ _ (by decide +kernel)⟩
-
-/-- `parse_bytes`: the external `decode` `unwrap`s the detected encoding. -/
-def C03_bytes_nopanic_Statement : Prop :=
-  ∀ (env : Env) (decoded : Option (Nat × List Token × Option Nat)), parseBytes env decoded ≠ .panic
-
-theorem C03_bytes_nopanic_false : ¬ C03_bytes_nopanic_Statement :=
-  fun h => h Env.fresh none rfl
-
-theorem C03_bytes_nopanic_partial (env : Env) (len : Nat) (ts : List Token) (lexErr : Option Nat)
-    (h : TokenShape len ts lexErr) (hclose : NoStrayClose 0 ts) :
-    parseBytes env (some (len, ts, lexErr)) ≠ .panic :=
-  build_np .document len env ts lexErr h.tags hclose
+/-- … and `<a/></a>`. -/
+example : (build .fragment emptyThenCloseLen Env.fresh emptyThenClose none).err? =
+    some (.invalidCloseTag [] ['a'] ⟨6, 7⟩) := by
+  rw [build_eq_buildE]; decide +kernel
+example : TokenShape goodDocLen goodDoc none := tokenShape_of_B (by decide +kernel)
 
 /-! ### Accepted trees are sound -/
 
@@ -85,71 +61,26 @@ theorem forallList_imp {p q : Value → List Tree → Prop} (h : ∀ v ks, p v k
   | k :: ks, hk => ⟨forall_imp h k hk.1, forallList_imp h ks hk.2⟩
 end
 
-/-- Full strength (FALSE: attribute names / prefixes are not unique, see `C03_sound_unique_false`). -/
-def C03_sound_Statement : Prop :=
-  ∀ (m : Mode) (len : Nat) (env : Env) (ts : List Token) (lexErr : Option Nat) (p : Parsed),
-    build m len env ts lexErr = .ok p → StructValid p.tree ∧ NoAdjacentText p.tree
-
-/-- Whatever is accepted (from ANY token list) has a document node at the root and nowhere else,
-    orders every element's children namespaces → attributes → normal, keeps attribute and
-    namespace nodes under elements only and leaves as leaves, and has no two adjacent text nodes. -/
+/-- Whatever is accepted (from ANY token list) is structurally valid — a document node at the root
+    and nowhere else, every element's children ordered namespaces → attributes → normal, attribute
+    and namespace nodes under elements only, leaves are leaves, attribute names and declared
+    prefixes unique per element — and has no two adjacent text nodes. -/
 theorem C03_sound {m : Mode} {len : Nat} {env : Env} {ts : List Token} {lexErr : Option Nat} {p : Parsed}
-    (h : build m len env ts lexErr = .ok p) :
-    p.tree.value.isDocument = true ∧ p.tree.Forall (fun _ ks => OrderedKids ks) ∧
-      p.tree.Forall KindsOk ∧ NoAdjacentText p.tree := by
+    (h : build m len env ts lexErr = .ok p) : StructValid p.tree ∧ NoAdjacentText p.tree := by
   obtain ⟨hs, hd⟩ := build_sound h
-  refine ⟨by rw [hd]; rfl, forall_imp (fun _ _ h => h.1) _ hs, forall_imp (fun _ _ h => h.2.1) _ hs,
-    forall_imp (fun _ _ h => h.2.2) _ hs⟩
+  refine ⟨⟨by rw [hd]; rfl, forall_imp (fun _ _ h => h.1) _ hs, forall_imp (fun _ _ h => h.2.1) _ hs,
+    forall_imp (fun _ _ h => h.2.2.2) _ hs⟩, forall_imp (fun _ _ h => h.2.2.1) _ hs⟩
 
 /-- … and, for `parse`, what `validate_well_formed_document` checks. -/
 theorem C03_sound_document {len : Nat} {env : Env} {ts : List Token} {lexErr : Option Nat} {p : Parsed}
     (h : build .document len env ts lexErr = .ok p) : WellFormedTop p.tree :=
   build_document_wellFormed h
 
-/-- `<a xmlns:p='u' xmlns:q='u' p:x='' q:x=''/>` is accepted with two attribute nodes of one name. -/
-theorem C03_sound_unique_false : ¬ C03_sound_Statement := by
-  intro h
-  have hw : (build .document dupExpandedLen Env.fresh dupExpanded none).uniqueB = some false := by
-    rw [build_eq_buildE]; decide +kernel
-  cases hb : build .document dupExpandedLen Env.fresh dupExpanded none with
-  | ok p =>
-    rw [hb] at hw
-    have hv := (h .document dupExpandedLen Env.fresh dupExpanded none p hb).1.2.2.2
-    have := uniqueB_of_forall p.tree hv
-    simp [BuildResult.uniqueB, this] at hw
-  | err e env => rw [hb] at hw; simp [BuildResult.uniqueB] at hw
-  | panic => rw [hb] at hw; simp [BuildResult.uniqueB] at hw
-
-/-- The accepted tree, flattened: two attribute nodes with name id 3. -/
-theorem C03_reject_duplicate_expanded_false :
-    (build .document dupExpandedLen Env.fresh dupExpanded none).flat =
-      some [(0, .document), (1, .element 2), (2, .namespace 2 2), (2, .namespace 3 2),
-        (2, .attribute 3 []), (2, .attribute 3 [])] := by
+/-- Non-vacuity: `goodDoc` is accepted. -/
+example : (build .document goodDocLen Env.fresh goodDoc none).isOk = true := by
   rw [build_eq_buildE]; decide +kernel
 
-/-- `<a xmlns:p='u' xmlns:p='v'/>` is accepted with the prefix declared twice. -/
-theorem C03_reject_prefix_twice_false :
-    (build .document prefixTwiceLen Env.fresh prefixTwice none).flat =
-      some [(0, .document), (1, .element 2), (2, .namespace 2 2), (2, .namespace 2 3)] := by
-  rw [build_eq_buildE]; decide +kernel
-
-/-- `<x` is accepted by `parse_fragment` as the empty fragment (the tokenizer stops inside the
-    start tag without an error and the builder never looks at `element_builder` again). -/
-theorem C03_reject_truncated_false :
-    (build .fragment truncatedTagLen Env.fresh truncatedTag none).flat = some [(0, .document)] := by
-  rw [build_eq_buildE]; decide +kernel
-
-/-- `&#0;` (not an XML `Char`) is decoded to U+0000. -/
-theorem C03_reject_nonchar_false : parseContent false ['&', '#', '0', ';'] = .ok [Char.ofNat 0] := by
-  have := parseGo_entity false 0 0 (Char.ofNat 0) ['#', '0'] [] (by decide) (by decide +kernel)
-  simpa [parseContent, parseGo_nil, consOk] using this
-
-/-- `&#+65;` is decoded to `A` (`u32::from_str` accepts a sign). -/
-theorem C03_reject_signed_false : parseContent false ['&', '#', '+', '6', '5', ';'] = .ok ['A'] := by
-  have := parseGo_entity false 0 0 'A' ['#', '+', '6', '5'] [] (by decide) (by decide +kernel)
-  simpa [parseContent, parseGo_nil, consOk] using this
-
-/-! ### Rejections the code does enforce -/
+/-! ### Rejections -/
 
 /-- The first failing step decides the result, whatever follows. -/
 theorem C03_reject_sticky {m : Mode} {len : Nat} {env env' : Env} {pre post : List Token} {t : Token}
@@ -177,6 +108,15 @@ theorem C03_reject_version (b : Builder) (v : StrSpan) (e : Option StrSpan) (s :
     b.step (.declaration v e s sp) = .err (.unsupportedVersion v.text v.span) b.env := by
   simp [Builder.step, h]
 
+/-- An end tag without any open element (fragments). -/
+theorem C03_reject_stray_close (b : Builder) (p l sp : StrSpan) (n : Nat) (env1 : Env)
+    (hpar : b.parents = [])
+    (hname : elementNameId b.env b.nsStack p.text l.text p.span = .ok (env1, n)) :
+    b.closeElement p l sp = .err (.invalidCloseTag p.text l.text (Span.fromPrefixName p l)) env1 := by
+  unfold Builder.closeElement
+  rw [hname]
+  simp [hpar]
+
 /-- An end tag whose name is not the name of the open element. -/
 theorem C03_reject_mismatched_close (b : Builder) (p l sp : StrSpan) (n m : Nat) (env1 : Env)
     (hcur : b.cur.value = .element n)
@@ -185,7 +125,9 @@ theorem C03_reject_mismatched_close (b : Builder) (p l sp : StrSpan) (n m : Nat)
   unfold Builder.closeElement
   rw [hname]
   simp only [hcur]
-  simp [hne]
+  split
+  · rfl
+  · simp [hne]
 
 /-- A prefix that no open element declares (element names, in start and end tags). -/
 theorem C03_reject_unknown_prefix (env : Env) (stack : NsStack) (pfx name : Str) (sp : Span)
@@ -214,8 +156,56 @@ theorem C03_reject_duplicate_attribute_as_written (b : Builder) (eb : ElementBui
     rw [List.any_eq_true]; exact ⟨ab, hm, by simp [h1, h2]⟩
   simp [this]
 
-/-- A reference that does not decode (unknown entity, malformed number, surrogate, above
-    U+10FFFF), anywhere after well-spelled content, is rejected … -/
+/-- C03_reject_duplicate_expanded: an attribute that resolves to a NameId already used on this
+    element (same expanded name, however the prefixes are spelled) is a `DuplicateAttribute`. -/
+theorem C03_reject_duplicate_expanded (stack : NsStack) (node : Path) (st : AttrLoop) (ab : AttributeBuilder)
+    (rest : List AttributeBuilder) (env1 : Env) (n : Nat)
+    (hname : attributeNameId st.env stack ab.pfx ab.name ab.prefixSpan = .ok (env1, n))
+    (hseen : n ∈ st.seenNames) :
+    addAttributes stack node st (ab :: rest) =
+      .err (.duplicateAttribute (attrDisplayName ab.pfx ab.name) ab.nameSpan) env1 := by
+  simp [addAttributes, hname, hseen]
+
+/-- `<a xmlns:p='u' xmlns:q='u' p:x='1' q:x='2'/>` is rejected at `q:x`. -/
+example : (build .document dupExpandedLen Env.fresh dupExpanded none).err? =
+    some (.duplicateAttribute ['q', ':', 'x'] ⟨35, 38⟩) := by
+  rw [build_eq_buildE]; decide +kernel
+
+/-- C03_reject_prefix_twice: a prefix already declared on this start tag. -/
+theorem C03_reject_prefix_twice (b : Builder) (eb : ElementBuilder) (pfx : Str) (uri : StrSpan) (sp : Span) (u : Str)
+    (heb : b.eb = some eb) (hdec : parseContentGo true uri.start 0 uri.text = .ok u)
+    (hdup : (eb.namespaces.any fun d => d.1 == (b.env.internPrefix pfx).2) = true) :
+    b.prefix pfx uri sp = .err (.duplicateAttribute (declDisplayName pfx) sp)
+      ((b.env.internPrefix pfx).1.internNamespace u).1 := by
+  unfold Builder.prefix
+  rw [hdec]
+  simp only [heb, hdup, if_true]
+
+/-- `<a xmlns:p='u' xmlns:p='v'/>` is rejected at the second `xmlns:p`. -/
+example : (build .document prefixTwiceLen Env.fresh prefixTwice none).err? =
+    some (.duplicateAttribute ['x', 'm', 'l', 'n', 's', ':', 'p'] ⟨15, 22⟩) := by
+  rw [build_eq_buildE]; decide +kernel
+
+/-- An ill-formed value of a namespace declaration is rejected like any attribute value. -/
+theorem C03_reject_declaration_content_error (b : Builder) (pfx : Str) (uri : StrSpan) (sp : Span) (e : ContentErr)
+    (h : parseContentGo true uri.start 0 uri.text = .error e) :
+    b.prefix pfx uri sp = .err (ParseErr.ofContent e) b.env := by
+  unfold Builder.prefix
+  rw [h]
+
+/-- C03_reject_nonchar: whatever a reference decodes to is an XML `Char`
+    (`#x9 | #xA | #xD | [#x20-#xD7FF] | [#xE000-#xFFFD] | [#x10000-#x10FFFF]`). -/
+theorem C03_reject_nonchar (ent : Str) (c : Char) (h : decodeEntity ent = some c) :
+    isXmlCharCode c.toNat = true :=
+  decodeEntity_xmlChar h
+
+/-- C03_reject_signed: a sign is not a digit. -/
+theorem C03_reject_signed (rest : Str) :
+    decodeEntity ('#' :: '+' :: rest) = none ∧ decodeEntity ('#' :: 'x' :: '+' :: rest) = none :=
+  decodeEntity_signed rest
+
+/-- A reference that does not decode (unknown entity, malformed number, sign, not an XML Char,
+    surrogate, above U+10FFFF), anywhere after well-spelled content, is rejected … -/
 theorem C03_reject_bad_reference (attr : Bool) (base : Nat) (ps : List Piece) (hw : WellSpelled ps)
     (ent rest : Str) (hsemi : ';' ∉ ent) (hdec : decodeEntity ent = none) :
     ∃ a b, parseContentGo attr base 0 (renderPieces ps ++ '&' :: (ent ++ ';' :: rest)) =
@@ -247,17 +237,42 @@ theorem C03_reject_attribute_content_error (b : Builder) (eb : ElementBuilder) (
 example : decodeEntity ['n', 'b', 's', 'p'] = none ∧ decodeEntity ['#'] = none ∧
     decodeEntity ['#', 'x'] = none ∧ decodeEntity ['#', 'x', 'D', '8', '0', '0'] = none ∧
     decodeEntity ['#', 'x', '1', '1', '0', '0', '0', '0'] = none ∧ decodeEntity ['#', 'X', '4', '1'] = none ∧
-    decodeEntity ['#', '4', '2', '9', '4', '9', '6', '7', '2', '9', '6'] = none := by
+    decodeEntity ['#', '4', '2', '9', '4', '9', '6', '7', '2', '9', '6'] = none ∧
+    decodeEntity ['#', '0'] = none ∧ decodeEntity ['#', 'x', '1'] = none ∧
+    decodeEntity ['#', 'x', 'F', 'F', 'F', 'E'] = none ∧ decodeEntity ['#', '+', '6', '5'] = none := by
   decide +kernel
 
-/-- A second `xml:id` with a value already seen. -/
+/-- `<a>&#0;</a>` and `<a>&#+65;</a>` are rejected with the span of the reference. -/
+example : (build .document nonCharLen Env.fresh nonChar none).err? = some (.invalidEntity ['0'] ⟨3, 7⟩) := by
+  rw [build_eq_buildE]; decide +kernel
+example : (build .document signedRefLen Env.fresh signedRef none).err? =
+    some (.invalidEntity ['+', '6', '5'] ⟨3, 9⟩) := by
+  rw [build_eq_buildE]; decide +kernel
+
+/-- A second `xml:id` with a value already seen (values are compared after normalisation). -/
 theorem C03_reject_duplicate_id (stack : NsStack) (node : Path) (st : AttrLoop) (ab : AttributeBuilder)
     (rest : List AttributeBuilder) (env1 : Env)
     (hname : attributeNameId st.env stack ab.pfx ab.name ab.prefixSpan = .ok (env1, Env.xmlIdName))
+    (hnew : ¬ Env.xmlIdName ∈ st.seenNames)
     (hseen : st.seenIds.contains ab.value = true) :
     addAttributes stack node st (ab :: rest) = .err (.duplicateId ab.value ab.valueSpan) env1 := by
   have hm : ab.value ∈ st.seenIds := by simpa using hseen
-  simp [addAttributes, hname, hm, Env.xmlIdName]
+  simp [addAttributes, hname, hm, hnew, Env.xmlIdName] at *
+  simp [hnew, hm]
+
+/-- `<a xml:id='i'><b xml:id='  i '/></a>` is rejected. -/
+example : (build .document dupIdSpacesLen Env.fresh dupIdSpaces none).err? =
+    some (.duplicateId ['i'] ⟨25, 29⟩) := by
+  rw [build_eq_buildE]; decide +kernel
+
+/-- C03_reject_truncated: input that ends inside a start tag. -/
+theorem C03_reject_truncated (b : Builder) (eb : ElementBuilder) (h : b.eb = some eb) :
+    b.run [] none = .err (.unclosedTag eb.span) b.env := by
+  simp [Builder.run, h]
+
+/-- `parse_fragment("<x")` is rejected with the span of `x`. -/
+example : (build .fragment truncatedTagLen Env.fresh truncatedTag none).err? = some (.unclosedTag ⟨1, 2⟩) := by
+  rw [build_eq_buildE]; decide +kernel
 
 /-- An element still open at the end of the input. -/
 theorem C03_reject_unclosed (b : Builder) (h : b.isCurrentDocument = false) (len : Nat) (p : Parsed) :
@@ -266,9 +281,11 @@ theorem C03_reject_unclosed (b : Builder) (h : b.isCurrentDocument = false) (len
 
 /-- No root, several roots, text at top level (documents): see `C03_sound_document`; e.g.
     `<a/><b/>` and `<a></b>`. -/
-example : (build .document twoRootsLen Env.fresh twoRoots none).isOk = false := by
+example : (build .document twoRootsLen Env.fresh twoRoots none).err? =
+    some (.multipleElementsAtTopLevel ⟨5, 6⟩) := by
   rw [build_eq_buildE]; decide +kernel
-example : (build .document mismatchLen Env.fresh mismatch none).isOk = false := by
+example : (build .document mismatchLen Env.fresh mismatch none).err? =
+    some (.invalidCloseTag [] ['b'] ⟨5, 6⟩) := by
   rw [build_eq_buildE]; decide +kernel
 
 end XotModel.Props
